@@ -181,6 +181,10 @@ def run(P: Program, R: Report, tier: str) -> None:
     from .neighbours import nearest_neighbour
 
     nearest_neighbour(P, R, "R06.9")
+    # ---- R06.13 a query of the data model never answers from a memo that some writer forgets to drop
+    from .memo import no_stale_memo
+
+    no_stale_memo(P, R, "R06.13")
 
 
 def move_order(P: Program, R: Report, ann, fams) -> None:
